@@ -17,6 +17,7 @@ package main
 //@ ghost decoded bool
 //@ ghost valid bool
 //@ ghost stored bool
+//@ ghost ended bool
 //@ ghost weekOK bool
 //@ ghost cfgOK bool
 
@@ -26,18 +27,22 @@ package main
 //@ contract handleUpload$1
 //@   requires r != nil && r.Body != nil && ucfg != nil && uploadBucket != nil
 //@   at call Decode#1: ghost $stored = false
+//@   at call Decode#1: ghost $ended = false
+//@   at call Token#1: after ghost $ended = result1 == io.EOF
 //@   at call Decode#1: after ghost $decoded = result == nil
 //@   at call validate#1: after ghost $valid = result == nil
 //@   at call Object#1: assert r.Method == "POST" && $decoded && $valid
+//@   at call Object#1: assert $ended
 //@   at call NewWriter#1: assert r.Method == "POST" && $decoded && $valid
 //@   at call NewWriter#1: ghost $stored = true
 //@   at call Error#1: assert arg1 == 400 && !$stored
 //@   at call Error#2: assert arg1 == 400 && !$stored
+//@   at call Error#3: assert arg1 == 400 && !$stored
 //@   at call Status#1: assert arg1 == 200
 //@   at call Status#1: assert $stored
 //@   at call Status#2: assert arg1 == 405
 //@   at call Status#2: assert r.Method != "POST"
-//@   modifies heap, $decoded, $stored, $valid, $cfgOK, $weekOK
+//@   modifies heap, $decoded, $stored, $valid, $cfgOK, $weekOK, $ended
 
 // validate accepts a report only if the week is a date, the config version is
 // a semantic version, X is not 0 and every program build, counter and stack
